@@ -109,6 +109,13 @@ func main() {
 		os.Exit(cmdCheck(V, pos[0], *verbose))
 	case "selftest":
 		os.Exit(cmdSelftest(V, pos, *verbose))
+	case "tsigma":
+		res := runTSigma()
+		b, _ := json.MarshalIndent(res, "", " ")
+		fmt.Println(string(b))
+		if res["result"] != "pass" {
+			os.Exit(2)
+		}
 	default:
 		usage()
 	}
